@@ -18,6 +18,7 @@ pub fn alphabet() -> Vec<BOp> {
         BOp::InsertNop(Ip::FromBegin1),
         BOp::InsertNop(Ip::FromEnd1),
         BOp::InsertRet(Ip::Begin),
+        BOp::InsertRet(Ip::FromEnd1),
         BOp::FunctionParameter,
         BOp::Variable,
         BOp::Undef,
